@@ -75,6 +75,9 @@ def scenarios(tier, seed=0):
             for gw in ("obs_beyond_v", "obs_beyond_c"):
                 yield {"kind": "extend", "name": name, "ext": ext, "gw": gw}
             yield {"kind": "extend", "name": name, "ext": ext, "sched": True}
+            # a start before the planting date (pre-season fallow days) with overridden crop parameters
+            yield {"kind": "extend", "name": name, "ext": ext, "pre": True, "cropkw": {"Zmin": 0.6}}
+            yield {"kind": "extend", "name": name, "ext": ext, "pre": True, "cropkw": {"Aer": 12, "Zmin": 0.2}}
 
 
 def run(scn):
@@ -148,7 +151,8 @@ def run(scn):
         return res
 
     if scn["kind"] == "extend":
-        spec = A.catalogue_spec(scn["name"], word="hot", irr="smt", iwc="Pct50", dz="deep30" if scn.get("gw") else "d12")
+        spec = A.catalogue_spec(scn["name"], word="hot", irr="smt", iwc="Pct50", dz="deep30" if scn.get("gw") else "d12",
+                                start="2001/04/11" if scn.get("pre") else "2001/05/01", cropkw=scn.get("cropkw"))
         if scn.get("gw"):
             # observations: at the start, and 400 / 600 days later (beyond the original end date, inside / beyond the extension)
             meth = "Variable" if scn["gw"].endswith("_v") else "Constant"
@@ -163,7 +167,12 @@ def run(scn):
         res["evals"] = 1
         if ab or ap:
             res["aborted"] = ab or ap
-            if ap and not ab:
+            from .c16 import documented
+
+            if ap and not ab and documented(ap):
+                # the extension schedules a further season that cannot mature inside the window: a documented rejection
+                res["notes"].append("extended window rejected with a documented error (further season cannot mature)")
+            elif ap and not ab:
                 res["violations"].append(V("extended-run-raises", None, {k: ap.get(k) for k in ("exc_type", "exc_origin", "exc_msg")}, "runs like the base", crop=scn["name"], ext=scn["ext"],
                                            exc_type=ap.get("exc_type"), exc_origin=ap.get("exc_origin"), sig=["extend-raise", ap.get("exc_origin")]))
             return res
